@@ -298,6 +298,176 @@ def unroll_join_accumulations(tree):
     return count
 
 
+def unroll_callee_loops(tree):
+    """Normalisation: a loop over a short literal sequence of tuples whose
+    target is *called* in the body - ``for make, angle in ((rot_z, t), (rot_y,
+    -b)): v = make(angle) @ v`` - is read unrolled, each element substituted,
+    so that the calls can be resolved.  Other literal loops stay loops."""
+    import copy
+    count = 0
+
+    class Sub(ast.NodeTransformer):
+        def __init__(self, mapping):
+            self.mapping = mapping
+
+        def visit_Name(self, node):
+            if node.id in self.mapping and isinstance(node.ctx, ast.Load):
+                return copy.deepcopy(self.mapping[node.id])
+            return node
+    for holder in ast.walk(tree):
+        for field in ('body', 'orelse', 'finalbody'):
+            block = getattr(holder, field, None)
+            if not (isinstance(block, list) and block and isinstance(block[0], ast.stmt)):
+                continue
+            new = []
+            for st in block:
+                ok = isinstance(st, ast.For) and not st.orelse \
+                    and isinstance(st.target, (ast.Tuple, ast.List)) \
+                    and all(isinstance(t, ast.Name) for t in st.target.elts) \
+                    and isinstance(st.iter, (ast.Tuple, ast.List)) and 1 <= len(st.iter.elts) <= 4 \
+                    and all(isinstance(e, (ast.Tuple, ast.List)) and len(e.elts) == len(st.target.elts)
+                            for e in st.iter.elts)
+                if ok:
+                    names = [t.id for t in st.target.elts]
+                    called = any(isinstance(n, ast.Call) and isinstance(n.func, ast.Name) and n.func.id in names
+                                 for b in st.body for n in ast.walk(b))
+                    stored = any(isinstance(n, ast.Name) and n.id in names and isinstance(n.ctx, ast.Store)
+                                 for b in st.body for n in ast.walk(b))
+                    jumps = any(isinstance(n, (ast.Break, ast.Continue)) for b in st.body for n in ast.walk(b))
+                    pure = all(not any(isinstance(x, (ast.Call, ast.Await)) for x in ast.walk(v))
+                               for e in st.iter.elts for v in e.elts)
+                    ok = called and not stored and not jumps and pure
+                if not ok:
+                    new.append(st)
+                    continue
+                for e in st.iter.elts:
+                    mapping = dict(zip(names, e.elts))
+                    for b in st.body:
+                        new.append(Sub(mapping).visit(copy.deepcopy(b)))
+                count += 1
+            setattr(holder, field, new)
+    if count:
+        ast.fix_missing_locations(tree)
+    return count
+
+
+_PURE_CALLS = {'len', 'abs', 'int', 'float', 'str', 'min', 'max', 'bool', 'tuple', 'ord', 'chr'}
+_PURE_METHODS = {'strip', 'lstrip', 'rstrip', 'lower', 'upper', 'startswith', 'endswith', 'isdigit',
+                 'isalpha', 'keys', 'values', 'items', 'get', 'count', 'index', 'format'}
+
+
+def _pure_value(node):
+    for n in ast.walk(node):
+        if isinstance(n, ast.Call):
+            f = n.func
+            if isinstance(f, ast.Name) and f.id in _PURE_CALLS:
+                continue
+            if isinstance(f, ast.Attribute) and f.attr in _PURE_METHODS:
+                continue
+            return False
+        if isinstance(n, (ast.Lambda, ast.ListComp, ast.SetComp, ast.DictComp, ast.GeneratorExp,
+                          ast.Await, ast.Yield, ast.YieldFrom, ast.NamedExpr, ast.Starred,
+                          ast.List, ast.Dict, ast.Set)):
+            return False
+    return True
+
+
+def inline_pure_temporaries(tree):
+    """Normalisation: a local bound once to a small side-effect-free expression
+    (``is_atom = tag == 'ATOM  '``, ``name = line[12:16].strip()``,
+    ``atom = group.atom``) whose inputs are not re-bound while it is in use is
+    read as that expression.  Hoisting a repeated test or look-up into a local
+    is then invisible to the rules.  Returns the number inlined."""
+    import copy
+    count = 0
+    for fn in [n for n in ast.walk(tree) if isinstance(n, (ast.FunctionDef, ast.AsyncFunctionDef))]:
+        stores, captured = {}, set()
+        params = {a.arg for a in fn.args.args + fn.args.kwonlyargs + fn.args.posonlyargs}
+        for n in ast.walk(fn):
+            if isinstance(n, ast.Name) and isinstance(n.ctx, (ast.Store, ast.Del)):
+                stores[n.id] = stores.get(n.id, 0) + 1
+            if n is not fn and isinstance(n, (ast.FunctionDef, ast.AsyncFunctionDef, ast.Lambda, ast.ClassDef,
+                                               ast.ListComp, ast.SetComp, ast.DictComp, ast.GeneratorExp)):
+                captured |= {m.id for m in ast.walk(n) if isinstance(m, ast.Name)}
+            if isinstance(n, (ast.Global, ast.Nonlocal)):
+                captured |= set(n.names)
+        loop_targets = {n.id for lp in ast.walk(fn) if isinstance(lp, ast.For)
+                        for n in ast.walk(lp.target) if isinstance(n, ast.Name)}
+
+        def field_alias(v):
+            # `tag = line[0:6]`, `name = line[12:16].strip()`: named fields of the
+            # record a loop runs over are what record-level rules are stated on
+            while isinstance(v, ast.Call) and isinstance(v.func, ast.Attribute) and not v.args:
+                v = v.func.value
+            return isinstance(v, ast.Subscript) and isinstance(v.value, ast.Name) \
+                and v.value.id in loop_targets
+        changed = True
+        rounds = 0
+        while changed and rounds < 6:
+            changed = False
+            rounds += 1
+            for holder in ast.walk(fn):
+                for field in ('body', 'orelse', 'finalbody'):
+                    block = getattr(holder, field, None)
+                    if not (isinstance(block, list) and block and isinstance(block[0], ast.stmt)):
+                        continue
+                    for i, st in enumerate(block):
+                        if not (isinstance(st, ast.Assign) and len(st.targets) == 1
+                                and isinstance(st.targets[0], ast.Name)):
+                            continue
+                        name = st.targets[0].id
+                        if stores.get(name) != 1 or name in params or name in captured:
+                            continue
+                        val = st.value
+                        if isinstance(val, (ast.Constant, ast.Name)) or not _pure_value(val) or field_alias(val):
+                            continue
+                        size = sum(1 for _ in ast.walk(val))
+                        rest = block[i + 1:]
+                        loads = [n for r in rest for n in ast.walk(r) if isinstance(n, ast.Name)
+                                 and n.id == name and isinstance(n.ctx, ast.Load)]
+                        all_loads = [n for n in ast.walk(fn) if isinstance(n, ast.Name) and n.id == name
+                                     and isinstance(n.ctx, ast.Load)]
+                        if not loads or len(loads) != len(all_loads) or size > 14 or size * len(loads) > 40:
+                            continue
+                        reads = {n.id for n in ast.walk(val) if isinstance(n, ast.Name)}
+                        attrs = {n.attr for n in ast.walk(val) if isinstance(n, ast.Attribute)}
+                        clobbered = False
+                        for r in rest:
+                            for n in ast.walk(r):
+                                if isinstance(n, ast.Name) and isinstance(n.ctx, (ast.Store, ast.Del)) \
+                                        and n.id in reads:
+                                    clobbered = True
+                                if isinstance(n, ast.Attribute) and isinstance(n.ctx, (ast.Store, ast.Del)) \
+                                        and n.attr in attrs:
+                                    clobbered = True
+                                if isinstance(n, ast.Subscript) and isinstance(n.ctx, (ast.Store, ast.Del)) \
+                                        and any(isinstance(x, ast.Name) and x.id in reads for x in ast.walk(n.value)):
+                                    clobbered = True
+                        # inside a loop the block runs again: the inputs must not be
+                        # re-bound anywhere in the loop unless they are bound before the temporary
+                        if clobbered:
+                            continue
+                        for u in loads:
+                            rep = copy.deepcopy(val)
+                            for sub in ast.walk(rep):
+                                ast.copy_location(sub, u)
+                            u.__class__ = rep.__class__
+                            u.__dict__.clear()
+                            u.__dict__.update(rep.__dict__)
+                        del block[i]
+                        if not block:
+                            block.append(ast.copy_location(ast.Pass(), st))
+                        stores[name] = 0
+                        count += 1
+                        changed = True
+                        break
+                    if changed:
+                        break
+                if changed:
+                    break
+    return count
+
+
 def orient_comparisons(tree):
     """Normalisation: every single ordering comparison is read in its `<` form
     (``a > b`` as ``b < a``, ``a >= b`` as ``b <= a``).  Rules about thresholds
@@ -437,11 +607,13 @@ class Module:
             raise AnalysisError('cannot parse {0}: {1}'.format(path, err))
         from .inline import inline_private_helpers
         self.inlined_helpers = inline_private_helpers(self.tree)
+        self.unrolled_callee_loops = unroll_callee_loops(self.tree)
         self.split_tuples = split_tuple_assignments(self.tree)
         self.unrolled_joins = unroll_join_accumulations(self.tree)
         self.propagated_constants = propagate_module_constants(self.tree)
         self.inlined_aliases = inline_attribute_aliases(self.tree)
         self.inlined_temporaries = inline_test_temporaries(self.tree)
+        self.inlined_pure_temporaries = inline_pure_temporaries(self.tree)
         self.oriented_comparisons = orient_comparisons(self.tree)
         self.positive_branches = positive_branches(self.tree)
         self.flattened_guards = flatten_guards(self.tree)
